@@ -41,7 +41,7 @@ U16 = [0, 1, 65535, 127, 128, 16383, 16384, 255, 256]
 U32 = [u32(x) for x in (0, 1, 0xFFFFFFFF, 127, 128, 16383, 16384, 65535, 2097151, 2097152, 268435455, 268435456,
                         0x7FFFFFFF, 0x80000000)]
 VBI = [1, 127, 128, 16383, 16384, 2097151, 2097152, 268435455]
-STR = [b(""), b("a"), b("a/b"), b("\u00e9"), b("\u20ac"), b("\U0001F600"), b("\ufeff"), b("\ufffd"), b("$SYS/x"), b("/"), b("a b")]
+STR = [b(""), b("a"), b("a/b"), b("\ufffd"), b("\u00e9"), b("\u20ac"), b("\U0001F600"), b("\ufeff"), b("$SYS/x"), b("/"), b("a b")]
 BIN = [[], [1], [255, 0], [0], [97], [0xC3]]
 PAY = [[], [1], [1, 2]]
 BIG1 = [123, 124, 125, 126]            # PUBLISH remaining length around 127/128
@@ -65,11 +65,11 @@ def pick(rng, lst, k, core=1):
 def domains(tier, rng):
     """value domains D (single-field deviations) and S (cartesian part) for this tier and seed"""
     if tier == "quick":
-        D = dict(u16=pick(rng, U16, 5, 3), u32=pick(rng, U32, 5, 3), vbi=pick(rng, VBI, 4, 1), str=pick(rng, STR, 5, 3),
+        D = dict(u16=pick(rng, U16, 5, 3), u32=pick(rng, U32, 5, 3), vbi=pick(rng, VBI, 4, 1), str=pick(rng, STR, 6, 4),
                  bin=pick(rng, BIN, 4, 3), pay=PAY, big=rng.sample(BIG1, 2) + rng.sample(BIG2, 1),
                  filt=pick(rng, FILT, 9, 3), badstr=pick(rng, BADSTR, 4, 2), badfilt=pick(rng, BADFILT, 5, 3),
                  badshare=pick(rng, BADSHARE, 4, 2))
-        S = dict(D, u16=rng.sample(U16[1:], 2), u32=rng.sample(U32[1:], 1), vbi=rng.sample(VBI, 1), str=[rng.choice(STR[1:4])],
+        S = dict(D, u16=rng.sample(U16[1:], 2), u32=rng.sample(U32[1:], 1), vbi=rng.sample(VBI, 1), str=[rng.choice(STR[1:3] + STR[4:5])],
                  bin=[rng.choice(BIN[1:3])], pay=rng.sample(PAY, 2), filt=[rng.choice(FILT[:3]), rng.choice(FILT[3:8])])
         propsel = sorted(rng.sample(PROP_IDS, 9) + [38])
     else:
@@ -78,7 +78,7 @@ def domains(tier, rng):
         S = dict(D, u16=rng.sample(U16[1:], 2), u32=rng.sample(U32[1:], 2), vbi=rng.sample(VBI, 2),
                  str=[STR[1], rng.choice(STR[2:])], bin=[BIN[1], rng.choice(BIN[2:])], pay=PAY,
                  filt=[FILT[0], rng.choice(FILT[1:3]), rng.choice(FILT[3:])])
-        propsel = PROP_IDS
+        propsel = sorted(rng.sample(PROP_IDS, 9) + [38])
     return D, S, propsel
 
 
